@@ -464,6 +464,69 @@ fn c07_subs<B: Fld>(run: &Arc<Run>) -> Vec<Arc<dyn Sub>> {
         ));
     }
 
+    // ---- dense sweep of the data-dependent unary operations (inversion above all: its reduction loops take a
+    // branch only for a few operands in a million, which no boundary class predicts): every residue of
+    // [1, 2^k], [p - 2^k, p - 1], every 2^i + j with |j| <= 32, and 2^k seed-derived residues
+    {
+        let k: u32 = tier.pick(18, 22);
+        let block = 1u64 << 12;
+        let span = 1u64 << k;
+        let pows: Vec<u128> = {
+            let mut v = vec![];
+            let bits = 128 - (p - 1).leading_zeros();
+            for i in 0..bits {
+                for j in -32i128..=32 {
+                    let b = 1u128 << i;
+                    let x = if j >= 0 { b.checked_add(j as u128) } else { b.checked_sub((-j) as u128) };
+                    if let Some(x) = x {
+                        if x > 0 && x < p {
+                            v.push(x);
+                        }
+                    }
+                }
+            }
+            v
+        };
+        let npow = pows.len() as u64;
+        let total = 3 * span + npow;
+        let pows = Arc::new(pows);
+        subs.push(sub_t(
+            &format!("{}.unary_sweep", B::NAME),
+            (total + block - 1) / block,
+            60,
+            true,
+            move |cidx, out| {
+                let hi = ((cidx + 1) * block).min(total);
+                let mut rng = Rng::labelled(seed, &format!("sweep-{}-{cidx}", B::NAME));
+                for idx in cidx * block..hi {
+                    let r: u128 = if idx < span {
+                        idx as u128 + 1
+                    } else if idx < 2 * span {
+                        p - 1 - (idx - span) as u128
+                    } else if idx < 3 * span {
+                        rng.next_u128() % p
+                    } else {
+                        pows[(idx - 3 * span) as usize]
+                    };
+                    let x = B::new_u(r);
+                    let inv = x.inv();
+                    if inv.int() != rm::invm(r, p) || x * inv != B::ONE {
+                        out.violation(format!("{}.inv: x*inv(x) != 1 or inv differs from the reference inverse", B::NAME), json!({"x": format!("{:#x}", r), "got": format!("{:#x}", inv.int())}));
+                    }
+                    if (B::ONE / x).int() != rm::invm(r, p) {
+                        out.violation(format!("{}.div: 1/x differs from the reference inverse", B::NAME), json!({"x": format!("{:#x}", r)}));
+                    }
+                    if x.square().int() != rm::mulm(r, r, p) || x.double().int() != rm::addm(r, r, p) || (-x).int() != rm::negm(r, p) || x.cube().int() != rm::mulm(rm::mulm(r, r, p), r, p) {
+                        out.violation(format!("{}.unary: square / double / neg / cube differs from integer arithmetic mod p", B::NAME), json!({"x": format!("{:#x}", r)}));
+                    }
+                }
+                out.evals(hi - cidx * block - 1);
+                out.nontrivial_n(hi - cidx * block);
+            },
+            move |cidx| json!({"residues": format!("sweep block {cidx} of [1,2^{k}] ++ [p-2^{k},p-1] ++ 2^{k} seeded ++ 2^i+j")}),
+        ));
+    }
+
     // ---- exponentiation
     {
         let exps: Vec<u128> = {
